@@ -120,16 +120,48 @@ func must(err error) {
 // ---------------------------------------------------------------------------------------------
 // Coq printers
 
+// Every distinct string is defined once in the header of the case files (elaborating a string literal is what
+// costs time in Coq) and referred to by name afterwards.
+var interned = map[string]string{}
+var internOrder []string
+
+func str(x string) string {
+	id, ok := interned[x]
+	if !ok {
+		id = fmt.Sprintf("n%d", len(interned))
+		interned[x] = id
+		internOrder = append(internOrder, x)
+	}
+	return id
+}
+
+func strList(xs []string) string {
+	out := make([]string, len(xs))
+	for i, x := range xs {
+		out[i] = str(x)
+	}
+	return lib.List(out)
+}
+
+func header() string {
+	var b strings.Builder
+	b.WriteString("From PlzV Require Import Model.C22.\nDefinition F := File FReg.\nDefinition L := File FLinkDir.\n")
+	for _, x := range internOrder {
+		fmt.Fprintf(&b, "Definition %s : str := %s.\n", interned[x], lib.Str(x))
+	}
+	return b.String()
+}
+
 func coqNode(n *node) string {
 	switch n.Kind {
 	case "f":
-		return "(File FReg)"
+		return "F"
 	case "l":
-		return "(File FLinkDir)"
+		return "L"
 	}
 	items := make([]string, len(n.Kids))
 	for i, k := range n.Kids {
-		items[i] = lib.Pair(lib.Str(k.Name), coqNode(k))
+		items[i] = lib.Pair(str(k.Name), coqNode(k))
 	}
 	return "(Dir " + lib.List(items) + ")"
 }
@@ -644,8 +676,8 @@ func one(c *lib.Ctx, in *input, model bool) {
 	obs := run(in, in.Prefix == "")
 	js := jsonOf(in, obs)
 	if model {
-		c.Case(lib.App("CFind", lib.StrList(in.BuildFileNames), lib.StrList(in.Blacklist), lib.StrList(in.Experimental),
-			lib.Str(in.Root), lib.Str(in.Prefix), coqNode(sub), lib.StrList(obs.Files), lib.Opt(in.Prefix == "", lib.StrList(obs.Labels))),
+		c.Case(lib.App("CFind", strList(in.BuildFileNames), strList(in.Blacklist), strList(in.Experimental),
+			str(in.Root), str(in.Prefix), coqNode(sub), strList(obs.Files), lib.Opt(in.Prefix == "", strList(obs.Labels))),
 			js, keyOf(in), nontrivial(in))
 	} else {
 		c.Eval(js, keyOf(in), nontrivial(in))
@@ -691,6 +723,7 @@ func main() {
 		must(os.WriteFile(filepath.Join(linkTarget, "sub", "BUILD"), []byte(""), 0o644))
 
 		var rep input
+		defer func() { c.Model(header(), "C22.case", "C22.check") }()
 		if c.ReadReplay(&rep) {
 			one(c, &rep, true)
 			return
